@@ -1,4 +1,9 @@
 import Mps.Judge
+import MpsProps.Src.SrcCmpSign
+import MpsProps.Src.SrcCmpPresign
+import MpsProps.Src.SrcFrostSign
+import MpsProps.Src.SrcDoernerSign
+import MpsProps.Src.SrcCmpConfig
 import MpsProps.C01alg
 import MpsProps.AlgGen
 /-
